@@ -24,7 +24,7 @@
 (*   "after_call"   the classic mutation: advanced after f returns         *)
 (* Variant (constant BuilderBump): "after_write" (code) | "before_write"   *)
 (***************************************************************************)
-EXTENDS Integers, Sequences, FiniteSets, TLC, Json
+EXTENDS Integers, Sequences, FiniteSets, TLC, Json, SequencesExt
 
 CONSTANTS MaxN, ConsumerBump, BuilderBump
 
@@ -137,6 +137,54 @@ OutputsAccounted ==
     /\ pc = "unwound" => \A j \in 1..n : outs[j] # "init"
 \* a moved-out input (handed to f) is never also dropped by the library
 HandedNotDropped == \A i \in ByValOps : \A j \in 1..n : ~(ins[i][j] = "moved" /\ idrops[i][j] > 0)
+
+(* ---- model-to-model conformance ------------------------------------------------------------
+   The behaviour of the mechanism model, written in the event vocabulary of the trace specification
+   (spec/trace/GATrace.tla): when the model has finished (done / unwound) the whole execution is
+   printed as one trace.  The runner validates these traces with TLC against the CONTRACT: every
+   trace of the faithful model must be accepted, and the mutated variants (ConsumerBump = "after_call",
+   BuilderBump = "before_write") must produce at least one rejected trace - which shows that the
+   contract specification by itself distinguishes the correct bookkeeping from the broken one.      *)
+InId(i, j) == 100 * i + j
+OutId(j) == 1000 + j
+Handles == [i \in 1..NOps |-> i]
+EvCase == [ev |-> "case_start", case |-> "mech", prop |-> "model", ety |-> "tk", rec |-> FALSE]
+EvMk(i) == [ev |-> "mk", h |-> i, kind |-> "arr", items |-> [j \in 1..n |-> InId(i, j)], inner |-> 0, blk |-> 0]
+EvCall == [ev |-> "call", op |-> opn, recv |-> Handles, byval |-> form, arg |-> -1, elems |-> <<>>, n |-> n,
+           okind |-> "arr", truthful |-> TRUE, spare |-> FALSE]
+\* callback j (0-based): the closure receives element j of every operand, drops the by-value ones, returns a fresh element
+CbEvents(j, panics) ==
+    <<[ev |-> "cb", k |-> j, idx |-> (IF opn = "generate" THEN j ELSE -1),
+       args |-> [i \in 1..NOps |-> InId(i, j + 1)], acc |-> (IF opn = "fold" THEN j ELSE 0), pv |-> -1]>>
+    \o FlattenSeq([i \in 1..NOps |-> IF form[i] THEN <<[ev |-> "release_elem", id |-> InId(i, j + 1)],
+                                                       [ev |-> "drop", id |-> InId(i, j + 1), panic |-> FALSE]>> ELSE <<>>])
+    \o <<[ev |-> "cb_ret", k |-> j, ret |-> (IF panics \/ opn = "fold" THEN <<>> ELSE <<OutId(j + 1)>>),
+          acc |-> (IF opn = "fold" /\ ~panics THEN j + 1 ELSE 0), panic |-> panics]>>
+RECURSIVE CbRange(_, _)
+CbRange(a, b) == IF a >= b THEN <<>> ELSE CbEvents(a, FALSE) \o CbRange(a + 1, b)
+\* the destructor runs the unwinding performed (Unwind): out[1..bpos], in_i[cpos_i+1..n]; an uninitialised
+\* output slot dropped as if initialised shows up as a garbage drop (id -1)
+UnwindDrops ==
+    [j \in 1..bpos |-> [ev |-> "drop", id |-> (IF j <= k THEN OutId(j) ELSE -1), panic |-> FALSE]]
+    \o FlattenSeq([i \in 1..NOps |-> IF form[i] THEN [j \in 1..(n - cpos[i]) |-> [ev |-> "drop", id |-> InId(i, cpos[i] + j), panic |-> FALSE]]
+                                       ELSE <<>>])
+\* the caller lets go of what it still holds, in handle order
+ReleaseOf(h, items) == <<[ev |-> "release", h |-> h]>> \o [j \in 1..Len(items) |-> [ev |-> "drop", id |-> items[j], panic |-> FALSE]]
+                       \o <<[ev |-> "released", h |-> h, panicked |-> FALSE]>>
+ByRefReleases == FlattenSeq([i \in 1..NOps |-> IF form[i] THEN <<>> ELSE ReleaseOf(i, [j \in 1..n |-> InId(i, j)])])
+MechTrace ==
+    <<EvCase>> \o [i \in 1..NOps |-> EvMk(i)] \o <<EvCall>>
+    \o (IF pc = "done"
+        THEN CbRange(0, n)
+             \o <<[ev |-> "ret", outs |-> (IF opn = "fold" THEN <<>> ELSE <<[h |-> NOps + 1, kind |-> "arr", items |-> [j \in 1..n |-> OutId(j)], inner |-> 0, blk |-> 0]>>),
+                   vals |-> <<>>, obs |-> <<>>, res |-> (IF opn = "fold" THEN n ELSE -1), err |-> FALSE, dbg |-> "", dbgref |-> ""]>>
+             \o ByRefReleases
+             \o (IF opn = "fold" THEN <<>> ELSE ReleaseOf(NOps + 1, [j \in 1..n |-> OutId(j)]))
+        ELSE CbRange(0, k) \o CbEvents(k, TRUE) \o UnwindDrops
+             \o <<[ev |-> "unwound", obs |-> <<>>, msg |-> "injected", has_expected_msg |-> FALSE]>>
+             \o ByRefReleases)
+    \o <<[ev |-> "case_end"]>>
+EmitTrace == pc \in {"done", "unwound"} => PrintT(<<"MTR", ToJson(MechTrace)>>)
 
 (* ---- scenario emission: one per initial state (operation x form x N x crash point) ---- *)
 EmitInit == pc = "take" /\ k = 0 /\ handed = [i \in 1..NOps |-> 0] /\ bpos = 0 =>
